@@ -173,7 +173,7 @@ ARG_DAMAGE = []         # keys of argument arrays the program modified in place
 _ARG_REPORTED = set()
 
 
-def build_direct(spec, f):
+def build_direct(spec, f, history=True):
     """Build through constructors, as the unit tests do; can share the
     exported `ideal_ground` between models."""
     import mininec.mininec as mm
@@ -196,6 +196,34 @@ def build_direct(spec, f):
         media = _SHARED_MEDIA['real']
     elif spec.get('ground') == 'ideal':
         media = [mm.Medium(0, 0)]
+    def attempt(kind, wi, model):
+        # a construction the program rejects; the script catches the error
+        # and carries on (a helper that 'falls back' does exactly this)
+        w = wires[wi % len(wires)]
+        try:
+            if kind == 'insul_small':
+                mm.Insulation_Load(w, w.r * 0.5, 2.3)
+            elif kind == 'skin_twice':
+                if w.skin_load is not None:
+                    mm.Skin_Effect_Load(w, 1e6)
+            elif kind == 'excitation_both':
+                mm.Excitation(1 + 1j, 30.0)
+            elif kind == 'medium_bad':
+                mm.Medium(0, 0, 1.0)
+            elif model is not None and kind == 'src_range':
+                model.register_source(mm.Excitation(cvolt=1 + 0j), 100000)
+            elif model is not None and kind == 'load_range':
+                model.register_load(mm.Impedance_Load(5 + 0j), 100000)
+            S.fired('rejected_construction_accepted')
+        except Exception:
+            S.fired('rejected_construction_raised')
+
+    # rejected attempts are history, not part of the model: the fresh
+    # evaluation builds the model without them
+    rejects = (spec.get('rejects') or []) if history else []
+    for rj in rejects:
+        if rj[1] == 'before':
+            attempt(rj[0], rj[2], None)
     trs = spec.get('transforms') or []
     if trs:
         # geometry container + transformations, handing in caller-owned
@@ -224,6 +252,9 @@ def build_direct(spec, f):
                 ARG_DAMAGE.append(key)
     else:
         m = mm.Mininec(f, wires, media=media, t=bool(spec.get('timing')))
+    for rj in rejects:
+        if rj[1] == 'after':
+            attempt(rj[0], rj[2], m)
     for src in spec['sources']:
         if src[0] == 'mp':
             # magnitude and phase (degrees) instead of a complex voltage
@@ -693,7 +724,7 @@ def oracle_api(task, point, wanted):
     f = task['pool'][fi]
     try:
         if task.get('builder') == 'direct':
-            m, status = build_direct(task['direct'], f)
+            m, status = build_direct(task['direct'], f, history=False)
         else:
             m, status = build_model(task['argv'], f)
     except Exception as e:
